@@ -156,9 +156,64 @@ theorem rows_pos : 0 < c.rows := by
   · exact h0
 
 theorem cap_pos : 0 < c.cap := by rw [h.cap_eq]; exact h.depth_pos
-theorem rw_le : c.rw ≤ c.cols := by unfold Cfg.cols; omega
-theorem ww_le : c.ww ≤ c.cols := by unfold Cfg.cols; omega
 
 end Cfg.WF
+
+theorem Cfg.rw_le_cols (c : Cfg) : c.rw ≤ c.cols := by unfold Cfg.cols; omega
+theorem Cfg.ww_le_cols (c : Cfg) : c.ww ≤ c.cols := by unfold Cfg.cols; omega
+
+/-! ### pointers as linear positions -/
+
+/-- linear position of a row/column pointer: `row * col_count + col` -/
+def lin (c : Cfg) (idx : Idx) : Nat := idx.row * c.cols + idx.col
+
+def Idx.InRange (c : Cfg) (idx : Idx) : Prop := idx.row < c.rows ∧ idx.col < c.cols
+
+theorem lin_lt {c : Cfg} {idx : Idx} (hi : idx.InRange c) : lin c idx < c.cap := by
+  unfold lin Cfg.cap
+  have : (idx.row + 1) * c.cols ≤ c.rows * c.cols := Nat.mul_le_mul_right _ hi.1
+  rw [Nat.succ_mul] at this
+  rw [Nat.mul_comm c.cols]
+  have := hi.2
+  omega
+
+/-- the cell `o < col_count` places after the pointer `idx` lives in column `(idx.col + o) mod col_count`,
+    in the row that the port of that column is addressed with -/
+theorem pos_col_row {c : Cfg} (h : c.WF) {idx : Idx} (hi : idx.InRange c) {o : Nat} (ho : o < c.cols) :
+    ((lin c idx + o) % c.cap) % c.cols = (if idx.col + o < c.cols then idx.col + o else idx.col + o - c.cols) ∧
+    ((lin c idx + o) % c.cap) / c.cols = portAddr c idx (((lin c idx + o) % c.cap) % c.cols) := by
+  obtain ⟨h1, h2⟩ := pos_decomp (R := c.rows) h.cols_pos hi.1 hi.2 (Nat.le_of_lt ho)
+  unfold lin Cfg.cap
+  refine ⟨h1, ?_⟩
+  rw [h2, h1]
+  unfold portAddr
+  rw [modIncr_eq h.rows_pos hi.1]
+  have := hi.2
+  split <;> split <;> first | rfl | omega
+
+/-- `incr_row_col` advances the linear position by `n` modulo the capacity (for `n ≤ col_count`) -/
+theorem lin_incrRowCol {c : Cfg} (h : c.WF) {idx : Idx} (hi : idx.InRange c) {n : Nat} (hn : n ≤ c.cols) :
+    (incrRowCol c idx n).InRange c ∧ lin c (incrRowCol c idx n) = (lin c idx + n) % c.cap := by
+  obtain ⟨h1, h2⟩ := pos_decomp (R := c.rows) h.cols_pos hi.1 hi.2 hn
+  have hdm := Nat.div_add_mod ((idx.row * c.cols + idx.col + n) % (c.cols * c.rows)) c.cols
+  rw [h1, h2] at hdm
+  have hc := hi.2
+  have hr := hi.1
+  have hb := lt_two_pow_bitsFor (c.cols - 1)
+  unfold incrRowCol
+  by_cases hlt : idx.col + n < c.cols
+  · rw [if_neg (by omega)]
+    rw [if_pos hlt, if_pos hlt] at hdm
+    refine ⟨⟨hr, hlt⟩, ?_⟩
+    unfold lin Cfg.cap
+    simp only
+    rw [← hdm, Nat.mul_comm]
+  · rw [if_pos (by omega)]
+    rw [if_neg hlt, if_neg hlt] at hdm
+    rw [modIncr_eq h.rows_pos hr, Nat.mod_eq_of_lt (by omega)]
+    refine ⟨⟨incRow_lt hr, by simp only; omega⟩, ?_⟩
+    unfold lin Cfg.cap
+    simp only
+    rw [← hdm, Nat.mul_comm]
 
 end TxV.WideFifo
